@@ -68,3 +68,44 @@ package imageblk
 //@ func Data.ServeHTTP
 //@   prop C11 C20
 //@   structural
+
+// ---- goroutine/parent races on captured variables (C11), structural contracts ----
+// Each function below starts goroutines; the only obligation generated for it is that no local variable
+// written by a goroutine it starts is accessed by the function afterwards (#gorace...). The bodies are not
+// executed symbolically.
+//@ func Data.GetArbitraryImage
+//@   prop C11
+//@   structural
+
+//@ func Data.DoRPC
+//@   prop C11
+//@   structural
+
+//@ func Data.SendBlocksSpecific
+//@   prop C11
+//@   structural
+
+//@ func Data.SendGridBlocks
+//@   prop C11
+//@   structural
+
+//@ func Data.SendGridVolume
+//@   prop C11
+//@   structural
+
+//@ func Data.foregroundROI
+//@   prop C11
+//@   structural
+
+//@ func Data.loadXYImages
+//@   prop C11
+//@   structural
+
+//@ func Data.writeBlocks
+//@   prop C11
+//@   structural
+
+//@ func Data.writeXYImage
+//@   prop C11
+//@   structural
+
